@@ -139,6 +139,7 @@ class Conn:
         else:
             after = None
         self.log('tx', label or k, len(data))
+        t_send = time.time()
         try:
             seg = self.server.segment
             if seg:
@@ -149,6 +150,8 @@ class Conn:
                 self.s.sendall(data)
         except OSError:
             self.eof = True
+        with self.server.lock:
+            self.server.send_time += time.time() - t_send     # time the peer itself spent trickling data out (not the tool's doing)
         if after == 'close':
             self.close()
             raise Done()
@@ -269,6 +272,7 @@ class Server:
         self.log, self.rx_raw = [], []
         self.t0 = time.time()
         self.nconn = 0
+        self.send_time = 0.0
         self.phases = {}        # conn idx -> phase label set by the behaviour
         self.lock = threading.Lock()
         self.ls = socket.socket(socket.AF_INET, socket.SOCK_STREAM)
